@@ -164,77 +164,76 @@ Lemma bag_eq_trans : forall a b c, bag_eq a b -> bag_eq b c -> bag_eq a c.
 Proof. intros a b c H1 H2 x. rewrite H1. apply H2. Qed.
 
 (* ------------------------------------------------------------------ set_ops.rs against the definition *)
-(* what the implementation computes, as a multiplicity *)
-Definition impl_mult (k : setk) (all : bool) (a b : nat) : nat :=
-  match k, all with
-  | KUnion, true => a + b
-  | KUnion, false => Nat.min 1 (a + b)
-  | KIntersect, true => if b =? 0 then 0 else a            (* membership, not min *)
-  | KIntersect, false => if b =? 0 then 0 else Nat.min 1 a
-  | KExcept, true => if b =? 0 then a else 0               (* membership, not difference *)
-  | KExcept, false => if b =? 0 then Nat.min 1 a else 0
-  end.
-
 Lemma min1_mem : forall x t, (if mem_row x t then 1 else 0) = Nat.min 1 (mult x t).
 Proof.
   intros x t. rewrite mem_row_mult. destruct (mult x t) as [|n]; cbn [Nat.eqb negb]; [reflexivity|]. destruct n; reflexivity.
 Qed.
 
-Theorem impl_op_mult : forall k all l r x,
-  mult x (impl_op k all l r) = impl_mult k all (mult x l) (mult x r).
+(* removing one occurrence *)
+Lemma mult_remove_one : forall x y t,
+  mult y (remove_one x t) = if srow_eqb y x && mem_row x t then mult y t - 1 else mult y t.
 Proof.
-  intros k all l r x. destruct k, all; cbn [impl_op impl_mult].
+  intros x y t. induction t as [|z t IH]; cbn [remove_one mult].
+  - rewrite andb_false_r. reflexivity.
+  - unfold mem_row. cbn [existsb]. fold (mem_row x t).
+    destruct (srow_eqb x z) eqn:Exz.
+    + apply srow_eqb_eq in Exz. subst z. cbn [orb]. rewrite andb_true_r.
+      destruct (srow_eqb y x); lia.
+    + cbn [orb mult]. rewrite IH. destruct (srow_eqb y x) eqn:Eyx; cbn [andb]; [|reflexivity].
+      apply srow_eqb_eq in Eyx. subst y. rewrite Exz. destruct (mem_row x t) eqn:Em; [|reflexivity].
+      apply mem_row_true in Em. lia.
+Qed.
+
+Lemma mult_inter_all : forall x l r, mult x (inter_all l r) = Nat.min (mult x l) (mult x r).
+Proof.
+  intros x l. induction l as [|y l IH]; intro r; cbn [inter_all mult]; [reflexivity|].
+  destruct (mem_row y r) eqn:Em.
+  - cbn [mult]. rewrite IH, mult_remove_one, Em, andb_true_r.
+    destruct (srow_eqb x y) eqn:E.
+    + apply srow_eqb_eq in E. subst y. apply mem_row_true in Em. lia.
+    + lia.
+  - rewrite IH. destruct (srow_eqb x y) eqn:E; [|lia].
+    apply srow_eqb_eq in E. subst y. apply mem_row_false in Em. lia.
+Qed.
+
+Lemma mult_except_all : forall x l r, mult x (except_all l r) = mult x l - mult x r.
+Proof.
+  intros x l. induction l as [|y l IH]; intro r; cbn [except_all mult]; [reflexivity|].
+  destruct (mem_row y r) eqn:Em.
+  - rewrite IH, mult_remove_one, Em, andb_true_r.
+    destruct (srow_eqb x y) eqn:E.
+    + apply srow_eqb_eq in E. subst y. apply mem_row_true in Em. lia.
+    + lia.
+  - cbn [mult]. rewrite IH. destruct (srow_eqb x y) eqn:E; [|lia].
+    apply srow_eqb_eq in E. subst y. apply mem_row_false in Em. lia.
+Qed.
+
+(* every operation of set_ops.rs has the multiplicities SQL defines, for all operands *)
+Theorem impl_op_mult : forall k all l r x,
+  mult x (impl_op k all l r) = spec_mult k all (mult x l) (mult x r).
+Proof.
+  intros k all l r x. destruct k, all; cbn [impl_op spec_mult].
   - apply mult_app.
   - rewrite mult_filter_seen. assert (H0 : mem_row x [] = false) by reflexivity. rewrite H0. cbn [negb andb].
     rewrite min1_mem, mult_app. reflexivity.
-  - rewrite mult_filter, mem_row_mult. destruct (mult x r =? 0); reflexivity.
+  - apply mult_inter_all.
   - rewrite mult_filter_seen. assert (H0 : mem_row x [] = false) by reflexivity. rewrite H0. rewrite andb_true_r.
-    rewrite (mem_row_mult x r). destruct (mult x r =? 0); cbn [negb andb]; [reflexivity|]. apply min1_mem.
-  - rewrite mult_filter, mem_row_mult. rewrite negb_involutive. destruct (mult x r =? 0); reflexivity.
+    rewrite (mem_row_mult x r). destruct (mult x r) as [|b] eqn:Eb; cbn [Nat.eqb negb andb].
+    + rewrite Nat.min_0_r. reflexivity.
+    + rewrite min1_mem. destruct (mult x l) as [|[|a]]; reflexivity.
+  - apply mult_except_all.
   - rewrite mult_filter_seen. assert (H0 : mem_row x [] = false) by reflexivity. rewrite H0. rewrite andb_true_r.
     rewrite (mem_row_mult x r), negb_involutive. destruct (mult x r =? 0); cbn [andb]; [|reflexivity]. apply min1_mem.
 Qed.
 
-(* UNION [ALL], INTERSECT and EXCEPT are computed as defined, for all operands *)
-Lemma impl_mult_spec : forall k all a b,
-  (all = false \/ k = KUnion) -> impl_mult k all a b = spec_mult k all a b.
-Proof.
-  intros k all a b H. destruct k, all; cbn [impl_mult spec_mult]; try reflexivity;
-    try (destruct H as [H|H]; discriminate).
-  - destruct b; cbn [Nat.eqb]; [rewrite Nat.min_0_r; reflexivity|]. destruct a; cbn [Nat.min]; [reflexivity|]. destruct a; reflexivity.
-Qed.
+Theorem impl_op_correct : forall k all l r, bag_eq (impl_op k all l r) (spec_op k all l r).
+Proof. intros k all l r x. rewrite impl_op_mult, spec_op_mult. reflexivity. Qed.
 
-(* INTERSECT ALL / EXCEPT ALL are right exactly when the row is not repeated on the left *)
-Lemma impl_mult_spec_all : forall k a b, a <= 1 -> impl_mult k true a b = spec_mult k true a b.
-Proof.
-  intros k a b H. destruct k; cbn [impl_mult spec_mult]; [reflexivity| |].
-  - destruct b; cbn [Nat.eqb]; [rewrite Nat.min_0_r; reflexivity|]. destruct a as [|[|a]]; cbn [Nat.min]; try reflexivity. lia.
-  - destruct b; cbn [Nat.eqb]; [lia|]. destruct a as [|[|a]]; cbn [Nat.sub]; try reflexivity. lia.
-Qed.
-
-Theorem impl_op_correct : forall k all l r,
-  (all = false \/ k = KUnion) -> bag_eq (impl_op k all l r) (spec_op k all l r).
-Proof.
-  intros k all l r H x. rewrite impl_op_mult, spec_op_mult. apply impl_mult_spec. exact H.
-Qed.
-
-Definition dup_free (t : table) : Prop := forall x, mult x t <= 1.
-
-Theorem impl_op_all_correct_dup_free : forall k l r,
-  dup_free l -> bag_eq (impl_op k true l r) (spec_op k true l r).
-Proof.
-  intros k l r H x. rewrite impl_op_mult, spec_op_mult. apply impl_mult_spec_all. apply H.
-Qed.
-
-(* [1; 1] EXCEPT ALL [1] and [1; 1] INTERSECT ALL [1] *)
-Theorem except_all_refuted : exists l r, ~ bag_eq (impl_op KExcept true l r) (spec_op KExcept true l r).
-Proof.
-  exists [[VInt 1]; [VInt 1]], [[VInt 1]]. intro H. specialize (H [VInt 1]). vm_compute in H. discriminate.
-Qed.
-Theorem intersect_all_refuted : exists l r, ~ bag_eq (impl_op KIntersect true l r) (spec_op KIntersect true l r).
-Proof.
-  exists [[VInt 1]; [VInt 1]], [[VInt 1]]. intro H. specialize (H [VInt 1]). vm_compute in H. discriminate.
-Qed.
+(* the former witnesses of the membership defect: [1; 1] EXCEPT ALL [1] = [1], [1; 1] INTERSECT ALL [1] = [1] *)
+Theorem all_variants_repaired :
+  impl_op KExcept true [[VInt 1]; [VInt 1]] [[VInt 1]] = [[VInt 1]] /\
+  impl_op KIntersect true [[VInt 1]; [VInt 1]] [[VInt 1]] = [[VInt 1]].
+Proof. split; reflexivity. Qed.
 
 (* the operations respect bag equality of their operands *)
 Lemma impl_op_congr : forall k all l l' r r',
